@@ -33,6 +33,9 @@ pub enum Resolver {
     Await,
     Join,
     JoinTwice,
+    /// a join is in flight (polled once, then left alone) while a second one is awaited; the
+    /// first is awaited afterwards
+    JoinInFlight,
 }
 
 pub struct X {
@@ -87,6 +90,14 @@ pub fn oracle(s: &ProgScene<X>, t: &Trace) -> Vec<Violation> {
                     detail: format!("call {own} returned Ok but its handler never completed"),
                 });
             }
+        }
+        // (2') ... with a result, not with a panic thrown into the caller
+        if o.res == Some(Res::Panicked) {
+            out.push(Violation {
+                clause: "resolves-after-termination",
+                key: format!("C02/panicked/{name}/cause={ck}"),
+                detail: format!("client {} op {} {op:?} panicked instead of completing with a result ({cause:?})", o.c, o.i),
+            });
         }
         // (2) everything resolves once the actor has terminated
         if term.is_some() {
@@ -147,7 +158,7 @@ pub fn oracle(s: &ProgScene<X>, t: &Trace) -> Vec<Violation> {
                             detail: format!("join returned the actor although it failed ({cause:?})"),
                         });
                     }
-                } else if graceful && joins_some == 0 && !an.ops.iter().any(|p| p.begin < o.begin && matches!(op_at(p.c, p.i), Some(Op::Join(_) | Op::JoinAwait(_)))) {
+                } else if graceful && joins_some == 0 && !an.ops.iter().any(|p| p.begin < o.begin && matches!(op_at(p.c, p.i), Some(Op::Join(_) | Op::JoinAwait(_) | Op::JoinStart(_)))) {
                     out.push(Violation {
                         clause: "join-some-on-graceful",
                         key: format!("C02/join-none-on-graceful/cause={ck}"),
@@ -189,11 +200,16 @@ pub fn make_case(progs: &[Vec<L>], cause: Cause, resolver: Resolver, mailbox: Ma
         Resolver::Await => clients.push(ClientSpec { init: vec![HInit::Addr], ops: vec![Op::Await(H::Addr(0))] }),
         Resolver::Join if own_free => clients.push(ClientSpec { init: vec![HInit::Own], ops: vec![Op::Join(H::Own(0))] }),
         Resolver::JoinTwice if own_free => clients.push(ClientSpec { init: vec![HInit::Own], ops: vec![Op::Join(H::Own(0)), Op::Join(H::Own(0))] }),
+        Resolver::JoinInFlight if own_free => {
+            clients.push(ClientSpec { init: vec![HInit::Own], ops: vec![Op::JoinStart(H::Own(0)), Op::JoinPollOnce(0), Op::Join(H::Own(0)), Op::JoinAwait(0)] })
+        }
         _ => {}
     }
     let mut role = RoleCfg::default();
     let mut spawn = SpawnCfg { mailbox, strat: Strat::Default, timeout: None };
     let mut exec = ExecCfg::default();
+    // a join future that is polled exactly once sees whether the handle's lock suspends
+    exec.lock_yield_is_choice = resolver == Resolver::JoinInFlight;
     match cause {
         Cause::StartErr => role.started.push(StartBeh::Err),
         Cause::StartPanic => role.started.push(StartBeh::Panic),
@@ -229,7 +245,7 @@ fn resolvers_for(cause: Cause) -> Vec<Resolver> {
         Cause::LastDrop => vec![Resolver::None],
         Cause::StoppedPanic => vec![Resolver::Halt],
         Cause::HandlerPanic(_) | Cause::TimeoutFail(_) | Cause::StartErr | Cause::StartPanic | Cause::StopClient => {
-            vec![Resolver::None, Resolver::Halt, Resolver::Await, Resolver::Join, Resolver::JoinTwice]
+            vec![Resolver::None, Resolver::Halt, Resolver::Await, Resolver::Join, Resolver::JoinTwice, Resolver::JoinInFlight]
         }
         // a cancellation point that is never reached must not leave the scene hanging: halt
         Cause::Cancel(_) => vec![Resolver::Halt],
@@ -240,7 +256,7 @@ fn plain_cases(tier: Tier) -> Vec<Case> {
     let mut v = vec![];
     let first0 = [L::CallAddr, L::CallCal, L::CallWCal, L::CallOwn];
     let first1 = [L::CallAddr, L::CallCal, L::CallWCal];
-    let second = [None, Some(L::Ping), Some(L::SendAddr), Some(L::CallAddr)];
+    let second = [None, Some(L::Ping), Some(L::SendAddr), Some(L::CallAddr), Some(L::CallAbandon), Some(L::SendAbandon)];
     let mbs: &[Mailbox] = if tier == Tier::Quick { &[Mailbox::U, Mailbox::B(0)] } else { &[Mailbox::U, Mailbox::B(0), Mailbox::B(1)] };
     let mut causes = vec![
         Cause::StopClient,
@@ -260,7 +276,7 @@ fn plain_cases(tier: Tier) -> Vec<Case> {
         for &cause in &causes {
             for resolver in resolvers_for(cause) {
                 for a in first0 {
-                    if a == L::CallOwn && matches!(resolver, Resolver::Join | Resolver::JoinTwice) {
+                    if a == L::CallOwn && matches!(resolver, Resolver::Join | Resolver::JoinTwice | Resolver::JoinInFlight) {
                         continue;
                     }
                     for s2 in second {
@@ -269,6 +285,9 @@ fn plain_cases(tier: Tier) -> Vec<Case> {
                             p0.extend(s2);
                             // quick: keep second ops to a representative subset
                             if tier == Tier::Quick && s2.is_some() && !(a == L::CallAddr || b == L::CallCal) {
+                                continue;
+                            }
+                            if tier == Tier::Quick && matches!(s2, Some(L::CallAbandon | L::SendAbandon)) && !(a == L::CallAddr && b == L::CallCal) {
                                 continue;
                             }
                             v.push(make_case(&[p0, vec![b]], cause, resolver, mb, None));
